@@ -661,6 +661,15 @@ def semantic_program(draw, profile: str = "modelled", disabled=(), focus: Option
         b = [max(2, budget[0] // 3)]
         subs[sub_names[k]] = draw(stmts(cfg, m, version, fields, callees, 1, b, sub_names[k]))
     main = draw(stmts(cfg, m, version, fields, sub_names, 0, budget, None))
+    chain = False
+    if nsubs >= 2 and version >= 3 and cfg.on("sub_internal_approve") and draw(st.integers(0, 3)) == 0:
+        # deep call chain main -> sub0 -> sub1 (-> sub2); the deepest subroutine approves on a condition and
+        # the code after the call in main checks something else
+        chain = True
+        for k in range(nsubs - 1):
+            subs[sub_names[k]].insert(0, ["call", sub_names[k + 1]])
+        subs[sub_names[-1]].insert(0, ["if", draw(cond(cfg, m, version, fields)), [["approve"]], [], draw(st.sampled_from(["bz", "bnz"]))])
+        main[0:0] = [["call", sub_names[0]], ["assert", draw(cond(cfg, m, version, fields))]]
     ast = {
         "version": version, "mode": m, "main": main, "subs": {n: subs[n] for n in sub_names},
         "subs_first": draw(st.booleans()), "end": draw(st.sampled_from([0, 0, 0, 1])),
@@ -668,6 +677,8 @@ def semantic_program(draw, profile: str = "modelled", disabled=(), focus: Option
         "coalesce": draw(st.booleans()) and cfg.on("shared_join_label"),
     }
     prog = lower_program(ast, cfg)
+    if chain:
+        prog["features"] = sorted(set(prog["features"]) | {"deep_call_chain"})
     if with_ast:
         prog["ast"] = ast
         prog["cfg_off"] = sorted(cfg.off)
